@@ -369,3 +369,68 @@ Definition batch_routing_key (explicit : option (list Z)) (has_entries : bool) (
   | None => if negb has_entries then RKNil
             else get_routing_key None binding col_count cols pkey ks0_empty table_pk per_col nvalues
   end.
+
+(* ---- one Query / Batch handle used several times ---------------------------------------------------------
+   The fields of a *Query that GetRoutingKey reads: routingKey (explicit), binding (set by Session.Bind),
+   values.  The statement (hence the prepared metadata) is fixed for the life of the handle. *)
+Record qstate := mkq { q_explicit : option (list Z); q_has_binding : bool; q_per : list mres; q_nvalues : Z }.
+
+Inductive qop :=
+| QBind (per : list mres) (nvalues : Z)       (* session.go:1260 q.Bind(v...): q.values = v (nothing else the key depends on) *)
+| QRoutingKey (k : option (list Z))           (* session.go:1083 q.RoutingKey(k): q.routingKey = k (nil: None) *)
+| QGet                                        (* q.GetRoutingKey(): reads q, writes none of the three fields *)
+| QPick                                       (* TokenAwareHostPolicy.Pick(q): calls q.GetRoutingKey(), result unused here *)
+| QFresh (has_binding : bool) (per : list mres) (nvalues : Z).
+                                              (* q.Release(); q = session.Query(stmt, v...) or session.Bind(stmt, fn):
+                                                 Release zeroes the struct (session.go:1403 reset), every field starts afresh *)
+
+Definition q_step (st : qstate) (op : qop) : qstate :=
+  match op with
+  | QBind per n => mkq (q_explicit st) (q_has_binding st) per n
+  | QRoutingKey k => mkq k (q_has_binding st) (q_per st) (q_nvalues st)
+  | QGet | QPick => st
+  | QFresh hb per n => mkq None hb per n
+  end.
+
+Section Handle.
+  (* the prepared statement's metadata *)
+  Variables (col_count : Z) (cols : list (list Z)) (pkey : list Z) (ks0_empty : bool) (table_pk : option (list (list Z))).
+
+  (* session.go:1169: q.binding != nil && len(q.values) == 0 *)
+  Definition q_get (st : qstate) : rk_out :=
+    get_routing_key (q_explicit st) (q_has_binding st && (q_nvalues st =? 0)) col_count cols pkey ks0_empty table_pk
+                    (q_per st) (q_nvalues st).
+
+  (* the results of the GetRoutingKey calls of an operation sequence, in order *)
+  Fixpoint q_run (st : qstate) (ops : list qop) : list rk_out :=
+    match ops with
+    | [] => []
+    | QGet :: rest => q_get st :: q_run st rest
+    | op :: rest => q_run (q_step st op) rest
+    end.
+
+  (* Batch: routingKey (explicit, only settable inside the package), Entries[0] (binding?, Args) *)
+  Record bstate := mkb { b_explicit : option (list Z); b_first : option (bool * list mres * Z) }.
+  Inductive bop :=
+  | BSetFirst (binding : bool) (per : list mres) (nvalues : Z)   (* b.Query / b.Bind on an empty batch, or b.Entries[0] = ... *)
+  | BAppend                                                     (* b.Query(other statement): a later entry *)
+  | BExplicit (k : option (list Z))
+  | BGet.
+  Definition b_step (st : bstate) (op : bop) : bstate :=
+    match op with
+    | BSetFirst bi per n => mkb (b_explicit st) (Some (bi, per, n))
+    | BExplicit k => mkb k (b_first st)
+    | BAppend | BGet => st
+    end.
+  Definition b_get (st : bstate) : rk_out :=
+    match b_first st with
+    | None => batch_routing_key (b_explicit st) false false col_count cols pkey ks0_empty table_pk [] 0
+    | Some (bi, per, n) => batch_routing_key (b_explicit st) true bi col_count cols pkey ks0_empty table_pk per n
+    end.
+  Fixpoint b_run (st : bstate) (ops : list bop) : list rk_out :=
+    match ops with
+    | [] => []
+    | BGet :: rest => b_get st :: b_run st rest
+    | op :: rest => b_run (b_step st op) rest
+    end.
+End Handle.
